@@ -21,7 +21,8 @@ are the same computation; (R2) the four consumers of a (factor, offset) pair app
 then subtract the offset, both taken from the same call; (R3) the prefix-aware rescaling of the old and new offsets in
 _get_conversion_factor is the same code up to renaming old<->new, which is what makes A->B and B->A mutually inverse affine
 maps; (R4) the CGS<->SI electromagnetic table is closed under reversal with reciprocal factors, pairs the dimensions listed
-in em_dimensions, and carries the Gaussian<->SI factors of the reference table."""
+in em_dimensions, and carries the Gaussian<->SI factors of the reference table.
+(R1, extended) get_base_equivalent re-creates the target unit in the unit's own registry; (R5) units obtained by unit arithmetic keep the zero point of an offset scale (decision table of Unit.__mul__ / __truediv__)."""
 LEVEL_NOTE = """Undecided: the identity / inverse / composition laws 'up to floating-point rounding' over all unit triples
 are numerical statements about float arithmetic and are not decided; only the structure that makes them hold in exact
 arithmetic is."""
